@@ -13,6 +13,7 @@ REPO = Path(os.environ.get("VERIF_REPO", "/repo"))
 CACHE = VERIF / ".cache"
 WORK = VERIF / ".work"
 TARGET = CACHE / "target"
+TARGET_REPO = CACHE / "target-repo"   # /repo's own workspace build: must not share artefacts with vprobe's
 
 ENV = dict(os.environ)
 ENV.update({
@@ -51,9 +52,12 @@ class Inconclusive(Exception):
 _built = {}
 
 
-def _cargo(args, cwd, what):
+def _cargo(args, cwd, what, target=None):
     t = time.time()
-    r = run(["cargo"] + args, cwd=str(cwd))
+    env = dict(ENV)
+    if target is not None:
+        env["CARGO_TARGET_DIR"] = str(target)
+    r = run(["cargo"] + args, cwd=str(cwd), env=env)
     if r.returncode != 0:
         tail = "\n".join(r.stdout.splitlines()[-40:])
         raise Inconclusive(f"build of {what} failed:\n{tail}")
@@ -80,8 +84,8 @@ def build_bins(profile="release") -> dict:
                 "--features", "cli,lsp", "--bin", "llw", "--bin", "lelwel-ls"]
         if profile == "release":
             args.append("--release")
-        _cargo(args, REPO, f"llw+lelwel-ls[{profile}]")
-        d = TARGET / ("release" if profile == "release" else "debug")
+        _cargo(args, REPO, f"llw+lelwel-ls[{profile}]", target=TARGET_REPO)
+        d = TARGET_REPO / ("release" if profile == "release" else "debug")
         _built[key] = {"llw": d / "llw", "lelwel-ls": d / "lelwel-ls"}
     return _built[key]
 
